@@ -26,6 +26,7 @@ mod c04t;
 mod c04m;
 mod typed;
 mod c07;
+mod c16x;
 mod streamraw;
 
 fn main() {
@@ -67,7 +68,7 @@ fn main() {
         "C17" => c17::run(&mut sink, thorough, seed),
         "C08" => c08::run(&mut sink, thorough, seed),
         "C15" => c15::run(&mut sink, thorough, seed),
-        "C16" => { c16::run(&mut sink, thorough, seed); typed::run_tt(&mut sink, thorough, seed); }
+        "C16" => { c16::run(&mut sink, thorough, seed); typed::run_tt(&mut sink, thorough, seed); c16x::run(&mut sink, thorough, seed); }
         "C04" => {
             c04::run(&mut sink, thorough, seed);
             c04m::run(&mut sink, thorough, seed);
@@ -111,6 +112,7 @@ fn replay(sink: &mut common::Sink, toks: &[&str]) {
         "f64lit" | "f32lit" => c08::replay(sink, toks),
         "tov" | "tovagree" => c15::replay(sink, toks),
         "c16" => c16::replay(sink, toks),
+        "c16x" => c16x::replay(sink, toks),
         "rtv" | "rtt" => c04::replay(sink, toks),
         "rtm" => c04m::replay(sink, toks),
         "tt" | "tt3" | "pfxs" | "rfaults" => typed::replay(sink, toks),
